@@ -425,6 +425,15 @@ def run(repo: str, tier: str, seed: int, replay_dir=None, write_ev=True, jobs=No
                                            else {"op": "copy", "id": "c1", "src": "o1", "shallow": shallow}),
                                           {"op": "set", "obj": who_set, "name": n2, "value": OPTION_SPACE[n2][1 if n2 != n1 else 0]},
                                           {"op": "conv", "prog": "short:sentinel", "obj": who_conv}, {"op": "conv", "prog": "short:sentinel", "obj": who_set}])
+        # ---- option values that are equal to a legal value but another string object (built at run time)
+        for n1 in OPTION_NAMES:
+            for v1 in OPTION_SPACE[n1]:
+                for n2 in [None] + [n for n in OPTION_NAMES if n != n1]:
+                    h = [{"op": "new", "id": "o1"}, {"op": "set", "obj": "o1", "name": n1, "value": v1, "fresh": True}]
+                    if n2:
+                        h.append({"op": "set", "obj": "o1", "name": n2, "value": OPTION_SPACE[n2][1], "fresh": True})
+                    h += [{"op": "conv", "prog": "short:sentinel", "obj": "o1"}, {"op": "conv", "prog": "short:if_chain", "obj": "o1"}]
+                    copy_hist.append(h)
         # ---- a real file name passed as filename=, then a same-length variant of its contents under the
         # same name (nothing about the file on disk is an input of a conversion)
         pdir = os.path.join(os.path.dirname(os.path.dirname(os.path.abspath(__file__))), "pool")
